@@ -10,7 +10,9 @@
 (* Parts/Part split the signatures over several TLC processes.              *)
 EXTENDS ArgBindingDev, TLC, Json, IOUtils
 
-CONSTANTS MaxParams, MaxItems, MaxFlat, MaxSpread, MaxDict, ExtraKeys, UseVarNames, Parts, Part
+CONSTANTS MaxParams, MaxItems, MaxFlat, MaxSpread, MaxDict, ExtraKeys, UseVarNames, Parts, Part,
+          ParamKinds,      \* kinds of parameters to declare (Kinds = all)
+          UseFlagValue     \* also pass `key=<variable named like a flag>` (at most once per call)
 
 KeyOrder == Names \o <<"u", "data-x", "class", VaName, VkName>>
 KeyIdx(k) == CHOOSE i \in DOMAIN KeyOrder : KeyOrder[i] = k
@@ -30,6 +32,7 @@ DictKeySeqs(K) ==
 ItemsFor(s) == {ItemP} \cup {ItemK(k) : k \in KeysFor(s)}
                \cup {ItemL(n) : n \in 0..MaxSpread}
                \cup {ItemD(ks) : ks \in DictKeySeqs(KeysFor(s))}
+               \cup (IF UseFlagValue THEN {ItemKF(k) : k \in KeysFor(s)} ELSE {})
 
 Supplies(it) == CASE it.t = "L" -> it.n [] it.t = "D" -> Len(it.ks) [] OTHER -> 1
 
@@ -39,11 +42,13 @@ SigCode(s) == LET RECURSIVE C(_)
 Mine(s) == SigCode(s) % Parts = Part
 
 MCNext ==
-  \/ \E k \in Kinds, d \in BOOLEAN : Len(sig) < MaxParams /\ Declare(Param(k, d))
+  \/ \E k \in ParamKinds, d \in BOOLEAN : Len(sig) < MaxParams /\ Declare(Param(k, d))
   \/ /\ Mine(sig)
      /\ Len(call) < MaxItems
      /\ b.err = "" /\ ~b.strict
-     /\ \E it \in ItemsFor(sig) : b.nflat + Supplies(it) <= MaxFlat /\ Pass(it)
+     /\ \E it \in ItemsFor(sig) : /\ b.nflat + Supplies(it) <= MaxFlat
+                                  /\ it.fv => ~\E i \in DOMAIN call : call[i].fv
+                                  /\ Pass(it)
 
 MCSpec == ABInit /\ [][MCNext]_abVars
 
